@@ -119,6 +119,15 @@ Theorem c09_lazy_eq_eager : forall fmt_float prs_float v45 r, span_ok r ->
 Proof. exact span_lazy_eq_eager. Qed.
 Print Assumptions c09_lazy_eq_eager.
 
+(* neither variant_end nor variant_span panics, whatever the record (also outside span_ok); a
+   record whose end lies before its start (INFO END < POS) is an InvalidData error in every view,
+   so c09_lazy_eq_eager covers it as "both Err" *)
+Theorem c09_span_no_panic : forall v45 r,
+  variant_end v45 r <> Panic /\ variant_span v45 r <> Panic /\
+  (forall e, variant_end v45 r = Ok e -> e < start_of r -> variant_span v45 r = Err InvalidData).
+Proof. exact variant_span_no_panic. Qed.
+Print Assumptions c09_span_no_panic.
+
 (* ... and on values: whatever the writer emits for a value is read identically by both readers *)
 Theorem c09_lazy_eq_eager_values :
   forall fmt_float prs_float (FOK : N -> Prop),
@@ -174,4 +183,13 @@ Proof.
     intros z [H|[H|[]]]; inversion H. unfold i32_ok. split; reflexivity || discriminate.
   - cbn. constructor; [exists 30%Z; split; [reflexivity|unfold i32_ok; split; reflexivity || discriminate]|].
     constructor; [exact I|constructor].
+Qed.
+
+Example c09_example_end_before_pos :
+  let r := {| si_pos := 7; si_reflen := 4; si_end := Some (Some (VInteger 3%Z)); si_svlen := None; si_len := None |} in
+  span_ok r /\ variant_end false r = Ok 3 /\ variant_span false r = Err InvalidData /\
+  variant_span true r = Ok 4.
+Proof.
+  cbv zeta. split; [|vm_compute; repeat split].
+  repeat split. exists 3%Z. split; [reflexivity|unfold i32_ok; split; reflexivity || discriminate].
 Qed.
